@@ -195,7 +195,9 @@ unsafe fn level_swap<M: Manager>(
             }
         }
 
-        upper.insert(manager.clone_edge(e));
+        // SAFETY: `e` points to an inner node; the caller will update level
+        // numbers accordingly
+        unsafe { upper.insert_unchecked(manager.clone_edge(e)) };
         for (i, child) in new_children.into_iter().enumerate() {
             // SAFETY: we have exclusive access to all nodes at the old upper
             // level and no child is borrowed.
